@@ -7,6 +7,7 @@ import (
 	"fmt"
 	"net"
 	"sync"
+	"sync/atomic"
 	"time"
 
 	"github.com/KevoDB/kevo/pkg/common/log"
@@ -224,7 +225,7 @@ func (m *Manager) getPrimaryStatus(status map[string]interface{}) map[string]int
 	status["active_replica_count"] = activeReplicas
 	status["replicas"] = replicas
 	status["current_wal_sequence"] = currentWalSeq
-	status["last_synced_sequence"] = m.primary.lastSyncedSeq
+	status["last_synced_sequence"] = atomic.LoadUint64(&m.primary.lastSyncedSeq)
 	status["retention_config"] = map[string]interface{}{
 		"max_age_hours":     m.primary.retentionConfig.MaxAgeHours,
 		"min_sequence_keep": m.primary.retentionConfig.MinSequenceKeep,
